@@ -89,6 +89,7 @@ fn main() {
                 shards: env_u64("VERIF_SHARDS", 16) as usize,
                 scale: std::env::var("VERIF_SCALE").ok().and_then(|v| v.parse::<f64>().ok()).unwrap_or(1.0),
                 root,
+                replay: Some(props::replay_case),
             };
             chess_verif::crash::install(&cfg.root, &cfg.id);
             std::process::exit(props::run(&cfg));
